@@ -133,3 +133,11 @@ Definition child_rng (r : lazyrng) (name : list N) : lazyrng := lazy_create r [F
    now it is folded into the key data *)
 Definition clear_suffix (r : lazyrng) : lazyrng := mkLazy (lr_key r) [].
 Definition materialise (sep : bool) (r : lazyrng) : lazyrng := mkLazy (as_jax_rng sep r) [].
+
+(* ---------------- Linen: rng counters through lift.cond / lift.switch ---------------- *)
+(* lax.cond / lax.switch trace every branch, one after the other, on inner scopes that share the rng counters of the
+   lifted scope: a branch that is listed at position i starts after the draws of the branches before it, and the draw
+   that follows the transform comes after the draws of ALL branches.  ds = draws per branch, entry = the count so far. *)
+Definition branch_counts (entry : nat) (ds : list nat) (i : nat) : list nat :=
+  seq (entry + fold_right Nat.add 0 (firstn i ds) + 1) (nth i ds 0).
+Definition count_after (entry : nat) (ds : list nat) : nat := entry + fold_right Nat.add 0 ds + 1.
